@@ -32,6 +32,12 @@ def on_stop_oracle(ix: Index) -> list[Violation]:
         if not closed:
             if calls:
                 out.append(Violation("stop-before-close", str(len(calls)), f"{c} is not closed but on_stop was called"))
+            # the transport under an established session is gone (its socket has been closed) - the session has ended,
+            # whatever the library made of the report: its stop callback is due
+            fds = [ev[4]["fd"] for ev in ix.h if ev[3] == "tr_new" and ix.fd_conn.get(ev[4]["fd"]) == c]  # (not the losers of a connect race)
+            gone = [ev for ev in ix.h if ev[3] == "sock_close" and ev[4].get("fd") in fds]
+            if fds and gone and not calls and ix.run_end and ix.run_end[1] > gone[0][1] + 2:
+                out.append(Violation("stop-missing", "transport-gone", f"{c} was established, its socket was closed at turn {gone[0][1]}, but the connection never closed and the stop callback never ran"))
             continue
         if len(calls) != 1:
             out.append(Violation("stop-count", str(len(calls)), f"{c} reached CONNECTED and closed; on_stop called {len(calls)}x (want exactly 1)"))
@@ -86,8 +92,8 @@ def on_stop_oracle(ix: Index) -> list[Violation]:
 class C07(CheckBase):
     pid = "C07"
     level = "exploration"
-    quick_cases = 480
-    thorough_cases = 4800
+    quick_cases = 720
+    thorough_cases = 7200
 
     def _cases(self, rng: random.Random, tier: str, idx: int) -> Iterable[dict]:
         r = idx % 6
@@ -131,7 +137,8 @@ class C07(CheckBase):
                         yield with_cause(base, cause, {"turn": n}, phase, rng)
         else:
             scn = gen_session(rng)
-            if idx % 24 == 17:
+            sub = (idx // 6) % 8  # (r == 5 here: three of eight of these cases go to the fixed families below)
+            if sub == 2:
                 # while the session is live another part of the application calls connect()/start_connection() with ITS stop
                 # callback (or none) and is refused; whatever ends the session later, the callback given when the session was
                 # set up is the one that runs
@@ -144,7 +151,7 @@ class C07(CheckBase):
                 scn = with_cause(scn, pick(rng, ["fin", "rst", "garbage", "dev_disconnect", "force_disconnect", "disconnect"]), {"on": "state", "match": {"new": "CONNECTED"}, "delay": pick(rng, [2.0, 3.0])}, "pre", rng)
                 yield scn
                 return
-            if idx % 12 == 11:
+            if sub in (1, 5):
                 # disconnect() is called while the hello is outstanding; the device answers the hello and drops the connection
                 # right behind it: the session is established and lost again before the waiting disconnect() gets to send
                 # its request - it had been asked for all the same
@@ -153,7 +160,9 @@ class C07(CheckBase):
                 last = "ConnectRequest" if login else "HelloRequest"
                 msg = ["ConnectResponse", {}] if login else ["HelloResponse", hello]
                 scn["client"].pop("expected_name", None)
-                scn["device"]["replies"] = {last: [{"msgs": [msg], "delay": pick(rng, [0.3, 1.0, 4.0]), "then": pick(rng, ["fin", "rst"])}]}
+                # (or stays: then the waiting disconnect() goes on to say goodbye to the session that was established meanwhile)
+                drop = pick(rng, ["fin", "rst", None])
+                scn["device"]["replies"] = {last: [{"msgs": [msg], "delay": pick(rng, [0.3, 1.0, 4.0]), **({"then": drop} if drop else {})}]}
                 scn["device"].pop("reply_delay", None)
                 scn["actors"] = [{"id": "a0", "at": {"t": 0.0}, "steps": [{"do": "connect", "login": login}, {"do": "sleep", "d": 30.0}]}, {"id": "closer", "at": "manual", "steps": [{"do": "disconnect"}]}]
                 scn["events"] = [{"at": {"on": "state", "match": {"new": "HANDSHAKE_COMPLETE"}, "delay": pick(rng, [0.0, 0.1])}, "do": "start_actor", "actor": "closer", "phase": "post"}]
@@ -161,7 +170,7 @@ class C07(CheckBase):
                 scn["net"]["cuts"] = pick(rng, [{"mode": "coalesce"}, {"mode": "sends"}])
                 yield scn
                 return
-            if idx % 12 == 5:
+            if sub == 0:
                 # a disconnect() that gives up waiting for a slow hello (5 s), then the hello completes after all, the caller
                 # of disconnect() is cancelled while it waits for the DisconnectResponse, and finally something else ends the
                 # session: it was established, so its stop callback runs - once
